@@ -653,8 +653,55 @@ pub fn c07_oracle(bytes: &[u8], d: &Decoded, a: &RenameArgs, packet_level: bool,
     Ok(())
 }
 
+/// A packet and a suffix rename whose source name, laid over the end of a packet name, starts in
+/// the middle of a label at a data byte that equals the source's first label-length byte.
+fn c07_length_byte_case(src: &mut Src, st: &mut Stats) -> PResult {
+    let l = *src.pick(&[32usize, 33, 45, 48, 57, 61]);
+    let x: Vec<u8> = (0..l).map(|_| *src.pick(b"abcdefgh")).collect();
+    let rest = Name::from_dotted(*src.pick(&["com", "example.org", "a.b.c"]));
+    let mut source = Name(vec![x.clone()]);
+    source.0.extend(rest.0.clone());
+    // trap: one label "p" + byte(l) + x, then rest
+    let mut trap_label = vec![b'p', l as u8];
+    trap_label.extend(&x);
+    let mut trap = Name(vec![trap_label]);
+    trap.0.extend(rest.0.clone());
+    let mut sub = Name(vec![b"www".to_vec()]);
+    sub.0.extend(source.0.clone());
+    let target = if src.chance(128) {
+        // same first-label length: the wrong rewrite would still be a well-formed name
+        let mut t = Name(vec![(0..l).map(|_| b'z').collect()]);
+        t.0.extend(Name::from_dotted("net").0);
+        t
+    } else {
+        Name::from_dotted("renamed.example.net")
+    };
+    let a_rec = |o: &Name| Record { owner: o.clone(), rtype: T_A, class: 1, ttl: 9, rdata: Rdata::A([1, 2, 3, 4]) };
+    let m = Message {
+        id: src.u16(),
+        flags: 0x8180,
+        qd: vec![Question { name: if src.chance(128) { trap.clone() } else { source.clone() }, qtype: 1, qclass: 1 }],
+        an: vec![a_rec(&trap), a_rec(&source), Record { owner: sub.clone(), rtype: T_CNAME, class: 1, ttl: 3, rdata: Rdata::Name1(trap.clone()) }],
+        ns: vec![Record { owner: source.clone(), rtype: T_NS, class: 1, ttl: 3, rdata: Rdata::Name1(sub.clone()) }],
+        ..Default::default()
+    };
+    let bytes = if src.chance(128) { enc::encode(&m, Layout::Literal).bytes } else { enc::encode(&m, Layout::Random(src)).bytes };
+    let d = match refdec::decode_strict(&bytes) {
+        Some(d) => d,
+        None => fail!("HARNESS: C07 length-byte packet not accepted by reference", "{}", hex_abbrev(&bytes)),
+    };
+    st.class("source:near-miss-length-byte-inside-label");
+    let a = RenameArgs { target, source, suffix: true, kind: "near-miss-length-byte-inside-label" };
+    c07_oracle(&bytes, &d, &a, src.chance(80), st)?;
+    st.nontrivial(&bytes);
+    Ok(())
+}
+
 fn c07_case(data: &[u8], st: &mut Stats) -> PResult {
     let mut src = Src::new(data);
+    if src.chance(12) {
+        return c07_length_byte_case(&mut src, st);
+    }
     let o = GenOpts { big: false, many: false, ..GenOpts::default() };
     let (bytes, d, _tag) = match gen_accepted(&mut src, &o) {
         Some(x) => x,
@@ -742,6 +789,7 @@ pub fn check_c07(ctx: &Ctx, known: &KnownFindings) -> Report {
         "source:near-miss-partial-label",
         "source:near-miss-byte-changed",
         "source:near-miss-extra-label",
+        "source:near-miss-length-byte-inside-label",
         "source:absent",
         "mode:suffix",
         "mode:exact",
